@@ -75,7 +75,7 @@ _CUR = {}
 
 
 def make_self(env, cls, fns):
-    """build the model instance state by executing the real change_args of the class on a fresh instance"""
+    """build the model instance state by executing the real constructor chain of the class on a fresh instance"""
     class Inst(Self_):
         def change_args(self, a):
             return fns['%s.change_args' % cls](self, a)
@@ -83,7 +83,8 @@ def make_self(env, cls, fns):
     S.expected_num_args = len(ARGNAMES.get(cls, []))
     if cls in ARGNAMES:
         _CUR['S'] = S
-        S.change_args(tuple(getattr(env, a) for a in ARGNAMES[cls]))
+        # the way an instance really comes to life: the class's own __init__, which reaches change_args through RheologyModelBase.__init__
+        fns['%s.__init__' % cls](S, tuple(getattr(env, a) for a in ARGNAMES[cls]))
     return S
 
 
@@ -101,6 +102,35 @@ def make_self_lifecycle(env, cls, fns):
     fns['%s.__init__' % cls](S, first)
     S.change_args(tuple(getattr(env, a) for a in ARGNAMES[cls]))
     return S, first
+
+
+PHYSICAL = {'MIN_FREQUENCY': ('<=', Fr(1, 10 ** 12), 'rad/s: forcing periods up to ~2e5 yr'), 'MAX_FREQUENCY': ('>=', Fr(10 ** 3), 'rad/s: seismic band'),
+            'MIN_MODULUS': ('<=', Fr(1), 'Pa: softer than any solid or partially molten layer')}
+
+
+def job_guards():
+    """the special-value guards of the models (frequency / rigidity thresholds of constants_x.pyx) must lie OUTSIDE the physical range the property quantifies over, so that every physical
+    argument reaches the main branch (whose value is the reciprocal of the published compliance); the range is the stated bound of this check"""
+    c = pyx_constants()
+    results = []
+    for k, (op, lim, note) in PHYSICAL.items():
+        ok = (c[k] <= lim) if op == '<=' else (c[k] >= lim)
+
+        def rp(md, k=k, lim=lim):
+            pt = {'w': 2.0e-5, 'mu': 5.0e4, 'eta': 1.0e12, 'cm': 0.2, 'cv': 0.02, 'alpha': 0.3, 'zeta': 1.0}
+            if k == 'MIN_FREQUENCY':
+                pt['w'] = float(lim) * 2
+            elif k == 'MAX_FREQUENCY':
+                pt['w'] = float(lim) / 2
+            else:
+                pt['mu'] = max(float(lim) * 2, min(float(c[k]) / 2, 5.0e4))
+            Mv, note_ = eval_model('Maxwell', pt)
+            Jm = 1 / pt['mu'] - 1j / (pt['eta'] * pt['w'])
+            return True, 'constants_x.pyx: %s = %s; Maxwell at the physical point %r returns %r, 1/J = %r [%s]' % (k, float(c[k]), pt, Mv, 1 / Jm, note_)
+        results.append(discharge(Obligation('guard constant %s = %s %s %s (%s): the physical range reaches the main branch of every model' % (k, float(c[k]), op, float(lim), note), z3.BoolVal(bool(ok)), [],
+                                            with_axioms=False, with_dens=False, replay=rp, key='guard-constant:%s' % k)))
+    return {'results': results, 'encoded': loader.ENCODED + [{'file': 'TidalPy/utilities/constants_x.pyx', 'function': 'MIN_FREQUENCY, MAX_FREQUENCY, MIN_MODULUS', 'sha256_16': solve.sha_of(repr(sorted((k, str(v)) for k, v in c.items())))}],
+            'label': 'guard constants'}
 
 
 def job_lifecycle(cls):
@@ -569,7 +599,7 @@ def job_legacy(name):
 
 
 def main():
-    jobs = [(job_model, {'cls': c}) for c in CLASSES] + [(job_lifecycle, {'cls': c}) for c in ARGNAMES] + [(job_vectorize, {}), (job_lookup, {})]
+    jobs = [(job_model, {'cls': c}) for c in CLASSES] + [(job_lifecycle, {'cls': c}) for c in ARGNAMES] + [(job_vectorize, {}), (job_lookup, {}), (job_guards, {})]
     jobs += [(job_legacy, {'name': n}) for n in ('off', 'elastic', 'newton', 'maxwell', 'voigt', 'burgers', 'andrade', 'sundberg')]
     meta = {
         'explanation': 'Every _implementation (and change_args) of models.pyx is transliterated from the current .pyx source and executed on symbols; the extreme-value guards are explored as paths. '
